@@ -60,7 +60,7 @@ Proof.
   destruct (draw_layout gap dc hs H st) as [[top2 off2] cs].
   destruct (draw_cursor_total dc (d_cur st) top2 cs) as (cs1 & -> & _).
   destruct (draw_follow_total (d_wants st) (d_cur st) top2 H cs1) as ([cs2 w2] & ->).
-  destruct (reset_loop cs2 0 top2 off2) as [top3 off3]. eauto.
+  destruct (reset_loop gap cs2 0 top2 off2) as [top3 off3]. eauto.
 Qed.
 
 (* ---------------------------------------------------------------------------------- *)
@@ -149,10 +149,12 @@ Qed.
 
 Definition sumz (l : list Z) : Z := fold_right Z.add 0 l.
 
-(* items: heights are uint16 values whose total fits a uint16 (the widget's own totalHeight is
-   a uint16), and there are fewer than 2^64 of them (indices are Go uint) *)
-Definition wf_items (hs : list Z) : Prop :=
-  Forall (fun h => 0 <= h) hs /\ sumz hs < 65536 /\ zlen hs < 18446744073709551616.
+(* items and gap: heights are uint16 values, the gap is not negative, the total height
+   (gaps included) fits a uint16 (the widget's own totalHeight is a uint16), and there are fewer
+   than 2^64 items (indices are Go uint) *)
+Definition wf_items (gap : Z) (hs : list Z) : Prop :=
+  Forall (fun h => 0 <= h) hs /\ 0 <= gap /\ sumz hs + gap * zlen hs < 65536 /\
+  zlen hs < 18446744073709551616.
 
 Lemma sumz_app a b : sumz (a ++ b) = sumz a + sumz b.
 Proof. induction a as [|x a IH]; simpl; lia. Qed.
@@ -256,19 +258,19 @@ Qed.
 (* Dynamic: geometry of the drawn children                                             *)
 (* ---------------------------------------------------------------------------------- *)
 
-Definition geom_ok (gap top0 : Z) (hs : list Z) (cs : list child) : Prop :=
-  heights_ok hs cs = true /\ consecutive cs = true /\ spacing gap top0 cs = true.
+Definition geom_ok (gap : Z) (hs : list Z) (cs : list child) : Prop :=
+  heights_ok hs cs = true /\ consecutive cs = true /\ spacing gap cs = true.
 
 Definition hd_is (i ah : Z) (cs : list child) : Prop :=
   match cs with [] => True | c :: _ => c_idx c = i /\ c_row c = ah end.
 
-Lemma geom_nil gap top0 hs : geom_ok gap top0 hs [].
+Lemma geom_nil gap hs : geom_ok gap hs [].
 Proof. repeat split. Qed.
 
-Lemma geom_cons gap top0 hs c cs :
-  builder hs (c_idx c) = Some (c_h c) -> geom_ok gap top0 hs cs ->
-  hd_is (c_idx c + 1) (c_row c + c_h c + (if c_idx c <? top0 then 0 else gap)) cs ->
-  geom_ok gap top0 hs (c :: cs).
+Lemma geom_cons gap hs c cs :
+  builder hs (c_idx c) = Some (c_h c) -> geom_ok gap hs cs ->
+  hd_is (c_idx c + 1) (c_row c + c_h c + gap) cs ->
+  geom_ok gap hs (c :: cs).
 Proof.
   intros Hb (H1 & H2 & H3) Hh. unfold geom_ok, heights_ok, consecutive, spacing in *.
   split; [|split].
@@ -277,21 +279,21 @@ Proof.
   - destruct cs as [|b t]; [reflexivity|]. rewrite adj_cons2, H3. destruct Hh as [_ Hr]. lia.
 Qed.
 
-Lemma down_loop_props gap top0 hs wants cur H co :
+Lemma down_loop_props gap hs wants cur H co :
   zlen hs < 18446744073709551616 ->
-  forall suffix i ah, suffix = items_from hs i -> 0 <= i -> top0 <= i ->
+  forall suffix i ah, suffix = items_from hs i -> 0 <= i ->
   let cs := down_loop suffix i ah wants cur H gap co in
-  geom_ok gap top0 hs cs /\ hd_is i ah cs /\ Forall (fun c => c_col c = co) cs /\
+  geom_ok gap hs cs /\ hd_is i ah cs /\ Forall (fun c => c_col c = co) cs /\
   (suffix <> [] -> cs <> []).
 Proof.
-  intros Hn. induction suffix as [|h rest IH]; intros i ah Hs Hi Ht.
+  intros Hn. induction suffix as [|h rest IH]; intros i ah Hs Hi.
   - simpl. split; [apply geom_nil|]. split; [exact I|]. split; [constructor|congruence].
   - symmetry in Hs. apply items_from_cons in Hs as (Hr & Hb & Hrest).
     assert (Hu : u64 (i + 1) = i + 1) by (apply u64_small; lia).
-    specialize (IH (i + 1) (ah + h + gap) Hrest ltac:(lia) ltac:(lia)).
+    specialize (IH (i + 1) (ah + h + gap) Hrest ltac:(lia)).
     cbn zeta in IH. destruct IH as (G & Hh & Hc & _).
-    assert (Gc : geom_ok gap top0 hs (mkC i ah co h :: down_loop rest (i + 1) (ah + h + gap) wants cur H gap co)).
-    { apply geom_cons; [simpl; exact Hb|exact G|]. simpl. destruct (i <? top0) eqn:E; [lia|]. exact Hh. }
+    assert (Gc : geom_ok gap hs (mkC i ah co h :: down_loop rest (i + 1) (ah + h + gap) wants cur H gap co)).
+    { apply geom_cons; [simpl; exact Hb|exact G|]. simpl. exact Hh. }
     cbn [down_loop]. rewrite Hu. cbn zeta.
     destruct (wants && (i + 1 <=? cur)).
     + split; [exact Gc|]. split; [simpl; auto|]. split; [constructor; auto|congruence].
@@ -301,7 +303,7 @@ Proof.
       * split; [exact Gc|]. split; [simpl; auto|]. split; [constructor; auto|congruence].
 Qed.
 
-Lemma geom_hd_builder gap top0 hs c cs : geom_ok gap top0 hs (c :: cs) -> builder hs (c_idx c) = Some (c_h c).
+Lemma geom_hd_builder gap hs c cs : geom_ok gap hs (c :: cs) -> builder hs (c_idx c) = Some (c_h c).
 Proof.
   intros (H & _ & _). unfold heights_ok in H. simpl in H. apply andb_prop in H as [H _].
   destruct (builder hs (c_idx c)) as [x|]; simpl in H; [|discriminate]. f_equal. lia.
@@ -309,50 +311,57 @@ Qed.
 
 Definition sumh (cs : list child) : Z := sumz (map c_h cs).
 
-Lemma ins_loop_props gap top0 hs co :
+Lemma ins_loop_props gap hs co :
   forall before t ah acc,
     before = items_back hs t -> Forall (fun h => 0 <= h) before ->
-    0 <= t < top0 -> t < 18446744073709551616 ->
-    geom_ok gap top0 hs acc -> hd_is (t + 1) ah acc -> Forall (fun c => c_col c = co /\ c_idx c < top0) acc ->
-    let '(t', ah', cs) := ins_loop before t ah co acc in
-    geom_ok gap top0 hs cs /\ hd_is t' ah' cs /\ Forall (fun c => c_col c = co /\ c_idx c < top0) cs /\
+    0 <= t < 18446744073709551616 ->
+    geom_ok gap hs acc -> hd_is (t + 1) ah acc -> Forall (fun c => c_col c = co) acc ->
+    let '(t', ah', cs) := ins_loop gap before t ah co acc in
+    geom_ok gap hs cs /\ hd_is t' ah' cs /\ Forall (fun c => c_col c = co) cs /\
     0 <= t' <= t /\
     (acc <> [] -> last_opt cs = last_opt acc) /\
     (acc = [] -> before <> [] -> exists l, last_opt cs = Some l /\ c_idx l = t) /\
     (before = [] -> cs = acc) /\
-    sumh cs <= sumh acc + sumz before.
+    sumh cs <= sumh acc + sumz before /\ zlen cs <= zlen acc + zlen before /\
+    (before <> [] -> t' = 0 \/ ah' <= 0).
 Proof.
-  induction before as [|h rest IH]; intros t ah acc Hb Hnn Ht Ht64 G Hh Hc.
+  induction before as [|h rest IH]; intros t ah acc Hb Hnn Ht G Hh Hc.
   - simpl. split; [exact G|]. split.
     { destruct acc as [|c acc]; [exact I|]. exfalso.
       apply geom_hd_builder in G. apply builder_some in G. destruct Hh as [Hi _].
       symmetry in Hb. apply items_back_nil in Hb; lia. }
-    split; [exact Hc|]. split; [lia|]. split; [auto|]. split; [congruence|]. split; [auto|]. simpl; lia.
+    split; [exact Hc|]. split; [lia|]. split; [auto|]. split; [congruence|]. split; [auto|].
+    split; [simpl; lia|]. split; [rewrite zlen_nil; lia|congruence].
   - symmetry in Hb. apply items_back_cons in Hb as (Hr & Hbd & Hrest).
     pose proof (Forall_inv Hnn) as Hh0. pose proof (Forall_inv_tail Hnn) as Hnn'. cbv beta in Hh0.
-    set (c := mkC t (ah - h) co h).
-    assert (G' : geom_ok gap top0 hs (c :: acc)).
-    { apply geom_cons; [exact Hbd|exact G|]. simpl. destruct (t <? top0) eqn:E; [|lia].
-      replace (ah - h + h + 0) with ah by lia. exact Hh. }
-    assert (Hc' : Forall (fun c => c_col c = co /\ c_idx c < top0) (c :: acc)) by (constructor; [simpl; split; [reflexivity|lia]|exact Hc]).
+    set (c := mkC t (ah - (h + gap)) co h).
+    assert (G' : geom_ok gap hs (c :: acc)).
+    { apply geom_cons; [exact Hbd|exact G|]. simpl.
+      replace (ah - (h + gap) + h + gap) with ah by lia. exact Hh. }
+    assert (Hc' : Forall (fun c => c_col c = co) (c :: acc)) by (constructor; [reflexivity|exact Hc]).
     assert (Hsum : sumh (c :: acc) = h + sumh acc) by reflexivity.
-    pose proof (sumz_nonneg _ Hnn') as Hrn.
-    cbn [ins_loop]. fold c. destruct ((t =? 0) || (ah - h <=? 0)) eqn:E.
+    pose proof (sumz_nonneg _ Hnn') as Hrn. pose proof (zlen_nonneg rest) as Hrl.
+    cbn [ins_loop]. fold c. destruct ((t =? 0) || (ah - (h + gap) <=? 0)) eqn:E.
     + split; [exact G'|]. split; [simpl; auto|]. split; [exact Hc'|]. split; [lia|].
       split; [intros Hne; apply last_opt_cons_ne; exact Hne|].
-      split; [intros -> _; exists c; auto|]. split; [discriminate|]. rewrite Hsum. simpl. lia.
+      split; [intros -> _; exists c; auto|]. split; [discriminate|].
+      split; [rewrite Hsum; simpl; lia|]. split; [rewrite !zlen_cons; lia|]. intros _. lia.
     + assert (Hu : u64 (t - 1) = t - 1) by (apply u64_small; lia). rewrite Hu.
       destruct (t =? 0) eqn:E0; [simpl in E; discriminate|].
-      specialize (IH (t - 1) (ah - h) (c :: acc) Hrest Hnn' ltac:(lia) ltac:(lia) G').
+      specialize (IH (t - 1) (ah - (h + gap)) (c :: acc) Hrest Hnn' ltac:(lia) G').
       replace (t - 1 + 1) with t in IH by lia.
       specialize (IH (conj eq_refl eq_refl) Hc').
-      destruct (ins_loop rest (t - 1) (ah - h) co (c :: acc)) as [[t' ah'] cs].
-      destruct IH as (I1 & I2 & I3 & I4 & I5 & _ & _ & I8).
+      destruct (ins_loop gap rest (t - 1) (ah - (h + gap)) co (c :: acc)) as [[t' ah'] cs].
+      destruct IH as (I1 & I2 & I3 & I4 & I5 & _ & I7 & I8 & I9 & I10).
       split; [exact I1|]. split; [exact I2|]. split; [exact I3|]. split; [lia|].
       assert (Hl : last_opt cs = last_opt (c :: acc)) by (apply I5; discriminate).
       split; [intros Hne; rewrite Hl; apply last_opt_cons_ne; exact Hne|].
       split; [intros -> _; rewrite Hl; exists c; auto|]. split; [discriminate|].
-      rewrite Hsum in I8. simpl. lia.
+      split; [rewrite Hsum in I8; simpl; lia|]. split; [rewrite !zlen_cons in *; lia|].
+      intros _. destruct rest as [|r0 rest'].
+      * (* rest = [] is impossible: t <> 0 *)
+        exfalso. symmetry in Hrest. apply items_back_nil in Hrest; lia.
+      * apply I10. discriminate.
 Qed.
 
 Lemma heights_nonneg hs cs :
@@ -367,35 +376,34 @@ Qed.
 Lemma sumh_nonneg cs : Forall (fun c => 0 <= c_h c) cs -> 0 <= sumh cs.
 Proof. induction 1; unfold sumh in *; simpl; lia. Qed.
 
-Lemma geom_tail gap top0 hs c cs : geom_ok gap top0 hs (c :: cs) -> geom_ok gap top0 hs cs.
+Lemma geom_tail gap hs c cs : geom_ok gap hs (c :: cs) -> geom_ok gap hs cs.
 Proof.
   intros (G1 & G2 & G3). unfold geom_ok, heights_ok, consecutive, spacing in *.
   simpl in G1. apply andb_prop in G1 as [_ G1]. apply adj_tail in G2. apply adj_tail in G3. auto.
 Qed.
 
-Lemma rerow_props gap top0 hs :
+Lemma rerow_props gap hs :
+  0 <= gap ->
   forall cs row,
-    geom_ok gap top0 hs cs -> Forall (fun c => 0 <= c_h c) cs -> Forall (fun c => c_idx c < top0) cs ->
-    0 <= row -> row + sumh cs < 65536 ->
-    geom_ok gap top0 hs (rerow cs row) /\
-    map c_idx (rerow cs row) = map c_idx cs /\ map c_col (rerow cs row) = map c_col cs /\
-    hd_is (match cs with [] => 0 | c :: _ => c_idx c end) row (rerow cs row).
+    geom_ok gap hs cs -> Forall (fun c => 0 <= c_h c) cs ->
+    0 <= row -> row + sumh cs + gap * zlen cs < 65536 ->
+    geom_ok gap hs (rerow gap cs row) /\
+    map c_idx (rerow gap cs row) = map c_idx cs /\ map c_col (rerow gap cs row) = map c_col cs /\
+    hd_is (match cs with [] => 0 | c :: _ => c_idx c end) row (rerow gap cs row).
 Proof.
-  induction cs as [|c cs IH]; intros row G Hh Hi Hr Hs.
+  intros Hg. induction cs as [|c cs IH]; intros row G Hh Hr Hs.
   - simpl. split; [apply geom_nil|]. auto.
-  - pose proof (Forall_inv Hh) as Hh0. pose proof (Forall_inv_tail Hh) as Hh'.
-    pose proof (Forall_inv Hi) as Hi0. pose proof (Forall_inv_tail Hi) as Hi'. cbv beta in Hh0, Hi0.
-    pose proof (sumh_nonneg cs Hh') as Hsn.
+  - pose proof (Forall_inv Hh) as Hh0. pose proof (Forall_inv_tail Hh) as Hh'. cbv beta in Hh0.
+    pose proof (sumh_nonneg cs Hh') as Hsn. pose proof (zlen_nonneg cs) as Hln.
     assert (Hsum : sumh (c :: cs) = c_h c + sumh cs) by reflexivity.
-    pose proof (geom_tail _ _ _ _ _ G) as Gt.
-    assert (Hu : u16 (row + c_h c) = row + c_h c) by (apply u16_small; lia).
-    specialize (IH (row + c_h c) Gt Hh' Hi' ltac:(lia) ltac:(lia)).
+    rewrite Hsum, zlen_cons in Hs.
+    pose proof (geom_tail _ _ _ _ G) as Gt.
+    assert (Hu : u16 (row + c_h c + gap) = row + c_h c + gap) by (apply u16_small; nia).
+    specialize (IH (row + c_h c + gap) Gt Hh' ltac:(lia) ltac:(nia)).
     destruct IH as (I1 & I2 & I3 & I4).
     cbn [rerow]. rewrite Hu. split; [|split; [|split]].
     + apply geom_cons; [simpl; eapply geom_hd_builder; exact G|exact I1|].
-      simpl. destruct (c_idx c <? top0) eqn:E; [|lia].
-      replace (row + c_h c + 0) with (row + c_h c) by lia.
-      destruct cs as [|b cs]; [exact I|]. simpl. split; [|reflexivity].
+      simpl. destruct cs as [|b cs]; [exact I|]. simpl. split; [|reflexivity].
       destruct G as (_ & G2 & _). unfold consecutive in G2. rewrite adj_cons2 in G2. lia.
     + simpl. f_equal. exact I2.
     + simpl. f_equal. exact I3.
@@ -416,27 +424,32 @@ Proof. intros E H. apply Forall_map. rewrite E. apply Forall_map. exact H. Qed.
 Definition hd_idx_is (t : Z) (cs : list child) : Prop :=
   match cs with [] => True | c :: _ => c_idx c = t end.
 
+Definition hd_row_le0 (cs : list child) : Prop :=
+  match cs with [] => True | c :: _ => c_row c <= 0 end.
+
+Lemma zlen_items_back hs t : zlen (items_back hs t) <= zlen hs.
+Proof.
+  unfold items_back. destruct ((t <? 0) || (zlen hs <=? t)); [rewrite zlen_nil; apply zlen_nonneg|].
+  unfold zlen. rewrite rev_length, firstn_length. lia.
+Qed.
+
 Lemma insert_children_props gap hs co top ah :
-  wf_items hs -> 1 <= top < 18446744073709551616 ->
-  let '(t, o, cs) := insert_children hs co top ah in
-  geom_ok gap top hs cs /\ hd_idx_is t cs /\ Forall (fun c => c_col c = co) cs /\
+  wf_items gap hs -> 1 <= top < 18446744073709551616 ->
+  let '(t, o, cs) := insert_children gap hs co top ah in
+  geom_ok gap hs cs /\ hd_idx_is t cs /\ hd_row_le0 cs /\ Forall (fun c => c_col c = co) cs /\
   0 <= t < top /\
   (cs = [] -> zlen hs <= top - 1) /\
   (forall l, last_opt cs = Some l -> c_idx l = top - 1).
 Proof.
-  intros (Hnn & Hsum & Hlen) Ht. unfold insert_children.
+  intros (Hnn & Hg & Hsum & Hlen) Ht. unfold insert_children.
   assert (Hu : u64 (top - 1) = top - 1) by (apply u64_small; lia). rewrite Hu.
-  pose proof (ins_loop_props gap top hs co (items_back hs (top - 1)) (top - 1) ah [] eq_refl) as P.
+  pose proof (ins_loop_props gap hs co (items_back hs (top - 1)) (top - 1) ah [] eq_refl) as P.
   assert (Hbn : Forall (fun h => 0 <= h) (items_back hs (top - 1))).
   { unfold items_back. destruct ((top - 1 <? 0) || (zlen hs <=? top - 1)); [constructor|].
     apply Forall_rev. apply Forall_firstn. exact Hnn. }
-  specialize (P Hbn ltac:(lia) ltac:(lia) (geom_nil _ _ _) I (Forall_nil _)).
-  destruct (ins_loop (items_back hs (top - 1)) (top - 1) ah co []) as [[t ah'] cs].
-  destruct P as (P1 & P2 & P3 & P4 & _ & P6 & P7 & P8).
-  assert (Hcol : Forall (fun c => c_col c = co) cs).
-  { eapply Forall_impl; [|exact P3]. intros c [Hc _]; exact Hc. }
-  assert (Hidx : Forall (fun c => c_idx c < top) cs).
-  { eapply Forall_impl; [|exact P3]. intros c [_ Hc]; exact Hc. }
+  specialize (P Hbn ltac:(lia) (geom_nil _ _) I (Forall_nil _)).
+  destruct (ins_loop gap (items_back hs (top - 1)) (top - 1) ah co []) as [[t ah'] cs].
+  destruct P as (P1 & P2 & P3 & P4 & _ & P6 & P7 & P8 & P9 & P10).
   assert (Hnil : cs = [] -> zlen hs <= top - 1).
   { intros ->. destruct (items_back hs (top - 1)) as [|hb0 hbt] eqn:E.
     - apply items_back_nil in E; lia.
@@ -447,27 +460,34 @@ Proof.
     - destruct P6 as (l' & Hl' & Hi); [reflexivity|discriminate|]. congruence. }
   destruct ((t =? 0) && (0 <? ah')) eqn:E.
   - pose proof (heights_nonneg hs cs Hnn (proj1 P1)) as Hh.
-    pose proof (sumz_items_back hs (top - 1) Hnn) as Hsb. unfold sumh in P8 at 2. simpl in P8.
-    destruct (rerow_props gap top hs cs 0 P1 Hh Hidx ltac:(lia) ltac:(lia)) as (R1 & R2 & R3 & R4).
+    pose proof (sumz_items_back hs (top - 1) Hnn) as Hsb. pose proof (zlen_items_back hs (top - 1)) as Hlb.
+    unfold sumh in P8 at 2. simpl in P8. rewrite zlen_nil in P9. pose proof (zlen_nonneg cs) as Hcl.
+    destruct (rerow_props gap hs Hg cs 0 P1 Hh ltac:(lia) ltac:(nia)) as (R1 & R2 & R3 & R4).
     split; [exact R1|]. split.
     { destruct cs as [|c cs]; [exact I|]. simpl in R4 |- *. simpl in P2. lia. }
-    split; [exact (Forall_by_map c_col (fun x => x = co) _ _ R3 Hcol)|].
+    split.
+    { destruct cs as [|c cs]; [exact I|]. simpl in R4 |- *. lia. }
+    split; [exact (Forall_by_map c_col (fun x => x = co) _ _ R3 P3)|].
     split; [lia|]. split.
     { intros Hr. apply Hnil. destruct cs; [reflexivity|discriminate]. }
-    intros l Hl. assert (Hm : option_map c_idx (last_opt (rerow cs 0)) = option_map c_idx (last_opt cs))
+    intros l Hl. assert (Hm : option_map c_idx (last_opt (rerow gap cs 0)) = option_map c_idx (last_opt cs))
       by (rewrite <- !last_opt_map; f_equal; exact R2).
     rewrite Hl in Hm. simpl in Hm. destruct (last_opt cs) as [l0|] eqn:El; [|discriminate].
     simpl in Hm. injection Hm as ->. apply Hlast. reflexivity.
   - split; [exact P1|]. split.
     { destruct cs as [|c cs]; [exact I|]. simpl in P2 |- *. tauto. }
-    split; [exact Hcol|]. split; [lia|]. split; [exact Hnil|exact Hlast].
+    split.
+    { destruct cs as [|c cs]; [exact I|]. simpl in P2 |- *. destruct P2 as [_ ->].
+      destruct (items_back hs (top - 1)) as [|hb0 hbt] eqn:Eb.
+      - pose proof (P7 eq_refl) as X. discriminate X.
+      - destruct P10 as [Ht0|Ha]; [discriminate| |exact Ha]. destruct (0 <? ah') eqn:E2; lia. }
+    split; [exact P3|]. split; [lia|]. split; [exact Hnil|exact Hlast].
 Qed.
 
-Lemma geom_app gap top0 hs a b :
-  geom_ok gap top0 hs a -> geom_ok gap top0 hs b ->
-  (forall l, last_opt a = Some l ->
-     hd_is (c_idx l + 1) (c_row l + c_h l + (if c_idx l <? top0 then 0 else gap)) b) ->
-  geom_ok gap top0 hs (a ++ b).
+Lemma geom_app gap hs a b :
+  geom_ok gap hs a -> geom_ok gap hs b ->
+  (forall l, last_opt a = Some l -> hd_is (c_idx l + 1) (c_row l + c_h l + gap) b) ->
+  geom_ok gap hs (a ++ b).
 Proof.
   intros (A1 & A2 & A3) (B1 & B2 & B3) J. unfold geom_ok, heights_ok, consecutive, spacing in *.
   rewrite forallb_app, !adj_app, A1, A2, A3, B1, B2, B3. simpl.
@@ -480,58 +500,48 @@ Definition wf_state (st : dstate) : Prop :=
   0 <= d_cur st < 18446744073709551616 /\ 0 <= d_top st < 18446744073709551616.
 
 Lemma draw_layout_props gap dc hs H st :
-  wf_items hs -> wf_state st ->
+  wf_items gap hs -> wf_state st ->
   let '(top2, off2, cs) := draw_layout gap dc hs H st in
-  geom_ok gap (d_top st) hs cs /\ hd_idx_is top2 cs /\ Forall (fun c => c_col c = coloff dc) cs /\
+  geom_ok gap hs cs /\ hd_idx_is top2 cs /\ hd_row_le0 cs /\ Forall (fun c => c_col c = coloff dc) cs /\
   0 <= top2 <= d_top st.
 Proof.
-  intros Hw (Hcur & Htop). pose proof Hw as (Hnn & Hsum & Hlen). unfold draw_layout.
+  intros Hw (Hcur & Htop). pose proof Hw as (Hnn & Hg & Hsum & Hlen). unfold draw_layout.
   set (ah0 := - (d_off st + d_pend st)).
   destruct ((0 <? ah0) && (d_top st =? 0)) eqn:E0.
   - (* at the top already: ah = 0 *)
     change (0 <? 0) with false. cbv iota. cbn [app].
-    pose proof (down_loop_props gap (d_top st) hs (d_wants st) (d_cur st) H (coloff dc) Hlen
-                  (items_from hs (d_top st)) (d_top st) 0 eq_refl ltac:(lia) ltac:(lia)) as P.
+    pose proof (down_loop_props gap hs (d_wants st) (d_cur st) H (coloff dc) Hlen
+                  (items_from hs (d_top st)) (d_top st) 0 eq_refl ltac:(lia)) as P.
     cbv zeta in P. destruct P as (P1 & P2 & P3 & _).
-    split; [exact P1|]. split; [|split; [exact P3|lia]].
-    destruct (down_loop _ _ _ _ _ _ _ _) as [|c cs]; [exact I|]. simpl in P2 |- *. tauto.
+    split; [exact P1|]. 
+    destruct (down_loop _ _ _ _ _ _ _ _) as [|c cs]; simpl in P2 |- *; [repeat split; auto; lia|].
+    repeat split; try tauto; try lia.
   - destruct (0 <? ah0) eqn:E1.
     + (* upward insertion *)
       assert (Ht1 : 1 <= d_top st < 18446744073709551616) by lia.
       pose proof (insert_children_props gap hs (coloff dc) (d_top st) ah0 Hw Ht1) as P.
-      destruct (insert_children hs (coloff dc) (d_top st) ah0) as [[t o] ins].
-      destruct P as (P1 & P2 & P3 & P4 & P5 & P6).
+      destruct (insert_children gap hs (coloff dc) (d_top st) ah0) as [[t o] ins].
+      destruct P as (P1 & P2 & P2r & P3 & P4 & P5 & P6).
       destruct (last_opt ins) as [l|] eqn:El.
-      * pose proof (down_loop_props gap (d_top st) hs (d_wants st) (d_cur st) H (coloff dc) Hlen
-                      (items_from hs (d_top st)) (d_top st) (c_row l + c_h l) eq_refl ltac:(lia) ltac:(lia)) as Q.
+      * pose proof (down_loop_props gap hs (d_wants st) (d_cur st) H (coloff dc) Hlen
+                      (items_from hs (d_top st)) (d_top st) (c_row l + c_h l + gap) eq_refl ltac:(lia)) as Q.
         cbv zeta in Q. destruct Q as (Q1 & Q2 & Q3 & _).
-        split; [|split; [|split; [apply Forall_app; auto|lia]]].
+        split; [|split; [|split; [|split; [apply Forall_app; auto|lia]]]].
         -- apply geom_app; auto. intros l' Hl'. assert (l' = l) by congruence. subst l'.
-           rewrite (P6 l eq_refl). destruct (d_top st - 1 <? d_top st) eqn:E2; [|lia].
-           replace (d_top st - 1 + 1) with (d_top st) by lia.
-           replace (c_row l + c_h l + 0) with (c_row l + c_h l) by lia. exact Q2.
+           rewrite (P6 l eq_refl). replace (d_top st - 1 + 1) with (d_top st) by lia. exact Q2.
         -- destruct ins as [|c ins]; [discriminate|]. exact P2.
+        -- destruct ins as [|c ins]; [discriminate|]. exact P2r.
       * apply last_opt_none in El. subst ins. specialize (P5 eq_refl).
         assert (Hf : items_from hs (d_top st) = []).
         { unfold items_from. destruct ((d_top st <? 0) || (zlen hs <=? d_top st)) eqn:E2; [reflexivity|lia]. }
-        rewrite Hf. simpl. split; [apply geom_nil|]. split; [exact I|]. split; [constructor|lia].
+        rewrite Hf. simpl. split; [apply geom_nil|]. split; [exact I|]. split; [exact I|]. split; [constructor|lia].
     + cbn [app].
-      pose proof (down_loop_props gap (d_top st) hs (d_wants st) (d_cur st) H (coloff dc) Hlen
-                    (items_from hs (d_top st)) (d_top st) ah0 eq_refl ltac:(lia) ltac:(lia)) as P.
+      pose proof (down_loop_props gap hs (d_wants st) (d_cur st) H (coloff dc) Hlen
+                    (items_from hs (d_top st)) (d_top st) ah0 eq_refl ltac:(lia)) as P.
       cbv zeta in P. destruct P as (P1 & P2 & P3 & _).
-      split; [exact P1|]. split; [|split; [exact P3|lia]].
-      destruct (down_loop _ _ _ _ _ _ _ _) as [|c cs]; [exact I|]. simpl in P2 |- *. tauto.
-Qed.
-
-Definition no_insertion (st : dstate) : Prop := d_off st + d_pend st >= 0 \/ d_top st = 0.
-
-Lemma draw_layout_noins gap dc hs H st :
-  no_insertion st -> fst (fst (draw_layout gap dc hs H st)) = d_top st.
-Proof.
-  intros Hn. unfold draw_layout.
-  destruct ((0 <? - (d_off st + d_pend st)) && (d_top st =? 0)) eqn:E0.
-  - reflexivity.
-  - destruct (0 <? - (d_off st + d_pend st)) eqn:E1; [|reflexivity]. destruct Hn; lia.
+      split; [exact P1|].
+      destruct (down_loop _ _ _ _ _ _ _ _) as [|c cs]; simpl in P2 |- *; [repeat split; auto; lia|].
+      repeat split; try tauto; try lia.
 Qed.
 
 (* ---------------------------------------------------------------------------------- *)
@@ -557,9 +567,9 @@ Proof. induction l as [|a t IH]; simpl; [reflexivity|]. now rewrite IH. Qed.
 
 Definition same_geom (a b : child) : Prop := c_idx a = c_idx b /\ c_row a = c_row b /\ c_h a = c_h b.
 
-Lemma geom_upd gap top0 hs cs k c cs1 :
+Lemma geom_upd gap hs cs k c cs1 :
   zget cs k = Some c -> zupd cs k (mkC (c_idx c) (c_row c) 0 (c_h c)) = Some cs1 ->
-  (geom_ok gap top0 hs cs -> geom_ok gap top0 hs cs1) /\ map c_idx cs1 = map c_idx cs.
+  (geom_ok gap hs cs -> geom_ok gap hs cs1) /\ map c_idx cs1 = map c_idx cs.
 Proof.
   intros Hg Hu. unfold zupd in Hu. destruct ((k <? 0) || (zlen cs <=? k)) eqn:E; [discriminate|].
   injection Hu as <-. unfold zget in Hg. destruct (k <? 0); [discriminate|].
@@ -575,12 +585,12 @@ Proof.
     + f_equal. apply IH. exact Hn.
 Qed.
 
-Lemma geom_shift gap top0 hs adj cs : geom_ok gap top0 hs cs -> geom_ok gap top0 hs (shift adj cs).
+Lemma geom_shift gap hs adj cs : geom_ok gap hs cs -> geom_ok gap hs (shift adj cs).
 Proof.
   intros (G1 & G2 & G3). unfold geom_ok, heights_ok, consecutive, spacing, shift in *.
   rewrite forallb_map'. simpl. split; [exact G1|]. split.
   - erewrite adj_map; [exact G2|]. reflexivity.
-  - erewrite adj_map; [exact G3|]. intros a b. simpl. destruct (c_idx a <? top0); lia.
+  - erewrite adj_map; [exact G3|]. intros a b. simpl. lia.
 Qed.
 
 Lemma hd_idx_by_map t cs cs' : map c_idx cs' = map c_idx cs -> hd_idx_is t cs -> hd_idx_is t cs'.
@@ -637,56 +647,75 @@ Qed.
 Lemma cols_ok_shift dc cur adj cs : cols_ok dc cur (shift adj cs) = cols_ok dc cur cs.
 Proof. unfold cols_ok, shift. rewrite forallb_map'. reflexivity. Qed.
 
-Lemma reset_loop_nocover cs : forall k top off,
-  (forall c, In c cs -> covers0 c = false) -> reset_loop cs k top off = (top, off).
+Lemma reset_loop_nocover gap cs : forall k top off,
+  (forall c, In c cs -> covers0 gap c = false) -> reset_loop gap cs k top off = (top, off).
 Proof.
   induction cs as [|a cs IH]; intros k top off Hn; [reflexivity|].
   cbn [reset_loop]. rewrite (Hn a (or_introl eq_refl)). apply IH. intros c Hc; apply Hn; right; exact Hc.
 Qed.
 
-Lemma no_overlap_after cs : forall a,
-  no_overlap (a :: cs) = true -> Forall (fun c => 0 <= c_h c) (a :: cs) ->
-  forall x, In x cs -> c_row a + c_h a <= c_row x.
+Lemma spacing_after gap cs : forall a,
+  0 <= gap -> spacing gap (a :: cs) = true -> Forall (fun c => 0 <= c_h c) (a :: cs) ->
+  forall x, In x cs -> c_row a + c_h a + gap <= c_row x.
 Proof.
-  induction cs as [|b cs IH]; intros a Hn Hh x Hx; [destruct Hx|].
-  unfold no_overlap in Hn. rewrite adj_cons2 in Hn. apply andb_prop in Hn as [H1 H2].
+  induction cs as [|b cs IH]; intros a Hg Hn Hh x Hx; [destruct Hx|].
+  unfold spacing in Hn. rewrite adj_cons2 in Hn. apply andb_prop in Hn as [H1 H2].
   pose proof (Forall_inv_tail Hh) as Hh'. pose proof (Forall_inv Hh') as Hb. cbv beta in Hb.
-  destruct Hx as [<-|Hx]; [lia|]. specialize (IH b H2 Hh' x Hx). lia.
+  destruct Hx as [<-|Hx]; [lia|]. specialize (IH b Hg H2 Hh' x Hx). lia.
 Qed.
 
-Lemma reset_loop_anchor cs : forall k top off t,
-  consecutive cs = true -> no_overlap cs = true -> Forall (fun c => 0 <= c_h c) cs ->
+Lemma reset_loop_anchor gap cs : forall k top off t,
+  0 <= gap ->
+  consecutive cs = true -> spacing gap cs = true -> Forall (fun c => 0 <= c_h c) cs ->
   Forall (fun c => 0 <= c_idx c < 18446744073709551616) cs ->
   hd_idx_is t cs -> t = top + k ->
-  let '(top3, off3) := reset_loop cs k top off in
-  forallb (fun c => negb (covers0 c) || ((top3 =? c_idx c) && (off3 =? - c_row c))) cs = true /\
+  let '(top3, off3) := reset_loop gap cs k top off in
+  forallb (fun c => negb (covers0 gap c) || ((top3 =? c_idx c) && (off3 =? - c_row c))) cs = true /\
   (top3 = top \/ 0 <= top3 < 18446744073709551616).
 Proof.
-  induction cs as [|a cs IH]; intros k top off t Hc Hn Hh Hi Ht Htk; [simpl; auto|].
+  induction cs as [|a cs IH]; intros k top off t Hg Hc Hn Hh Hi Ht Htk; [simpl; auto|].
   cbn [reset_loop]. simpl in Ht.
   pose proof (Forall_inv Hi) as Hia. cbv beta in Hia.
-  destruct (covers0 a) eqn:Ea.
-  - assert (Hno : forall c, In c cs -> covers0 c = false).
-    { intros c Hin. pose proof (no_overlap_after cs a Hn Hh c Hin). unfold covers0 in *. lia. }
-    rewrite (reset_loop_nocover cs _ _ _ Hno).
+  destruct (covers0 gap a) eqn:Ea.
+  - assert (Hno : forall c, In c cs -> covers0 gap c = false).
+    { intros c Hin. pose proof (spacing_after gap cs a Hg Hn Hh c Hin). unfold covers0 in *. lia. }
+    rewrite (reset_loop_nocover gap cs _ _ _ Hno).
     assert (Hu : u64 (top + k) = c_idx a) by (rewrite u64_small; lia).
     split; [|right; rewrite Hu; exact Hia].
     cbn [forallb]. rewrite Ea, Hu. simpl. replace (c_idx a =? c_idx a) with true by lia.
     replace (- c_row a =? - c_row a) with true by lia. simpl.
     apply forallb_forall. intros c Hin. rewrite (Hno c Hin). reflexivity.
-  - specialize (IH (k + 1) top off (t + 1) (adj_tail _ _ _ Hc) (adj_tail _ _ _ Hn)
+  - specialize (IH (k + 1) top off (t + 1) Hg (adj_tail _ _ _ Hc) (adj_tail _ _ _ Hn)
                    (Forall_inv_tail Hh) (Forall_inv_tail Hi)).
     assert (Hh1 : hd_idx_is (t + 1) cs).
     { destruct cs as [|b cs]; [exact I|]. simpl. unfold consecutive in Hc. rewrite adj_cons2 in Hc. lia. }
     specialize (IH Hh1 ltac:(lia)).
-    destruct (reset_loop cs (k + 1) top off) as [top3 off3]. destruct IH as [I1 I2].
+    destruct (reset_loop gap cs (k + 1) top off) as [top3 off3]. destruct IH as [I1 I2].
     split; [|exact I2]. cbn [forallb]. rewrite Ea. simpl. exact I1.
 Qed.
 
-Lemma spacing_no_overlap gap top0 cs :
-  0 <= gap -> spacing gap top0 cs = true -> no_overlap cs = true.
+Lemma spacing_no_overlap gap cs :
+  0 <= gap -> spacing gap cs = true -> no_overlap cs = true.
+Proof. intros Hg. unfold spacing, no_overlap. apply adj_imp. intros a b. lia. Qed.
+
+(* the children and the gaps below them tile the rows from the first child's row on: if the first
+   child starts at or above row 0, either one of them is on row 0 or everything ends above it *)
+Lemma covers_or_past_end gap cs : forall a,
+  spacing gap (a :: cs) = true -> c_row a <= 0 ->
+  existsb (covers0 gap) (a :: cs) || past_end gap (a :: cs) = true.
 Proof.
-  intros Hg. unfold spacing, no_overlap. apply adj_imp. intros a b. destruct (c_idx a <? top0); lia.
+  induction cs as [|b cs IH]; intros a Hs Hh.
+  - unfold past_end, covers0. simpl. lia.
+  - unfold spacing in Hs. rewrite adj_cons2 in Hs. apply andb_prop in Hs as [H1 H2].
+    cbn [existsb]. unfold past_end. change (last_opt (a :: b :: cs)) with (last_opt (b :: cs)).
+    destruct (covers0 gap a) eqn:Ec; [reflexivity|]. simpl.
+    apply (IH b H2). unfold covers0 in Ec. lia.
+Qed.
+
+Lemma scroll_kept_or_past_end gap cs :
+  spacing gap cs = true -> hd_row_le0 cs -> scroll_kept gap cs || past_end gap cs = true.
+Proof.
+  destruct cs as [|a cs]; [reflexivity|]. intros Hs Hh. apply covers_or_past_end; assumption.
 Qed.
 
 Lemma heights_idx_range hs cs :
@@ -697,13 +726,19 @@ Proof.
   eapply builder_some; exact E.
 Qed.
 
-Lemma draw_cursor_shape gap top0 hs dc cur top2 cs cs1 :
+Lemma draw_cursor_shape gap hs dc cur top2 cs cs1 :
   draw_cursor dc cur top2 cs = Some cs1 ->
-  (geom_ok gap top0 hs cs -> geom_ok gap top0 hs cs1) /\ map c_idx cs1 = map c_idx cs.
+  (geom_ok gap hs cs -> geom_ok gap hs cs1) /\ map c_idx cs1 = map c_idx cs /\
+  (hd_row_le0 cs -> hd_row_le0 cs1).
 Proof.
   unfold draw_cursor. destruct (dc && cursor_hit cur top2 cs).
   - destruct (zget cs (u64 (cur - top2))) as [c|] eqn:Eg; [|discriminate]. intros Hu.
-    exact (geom_upd gap top0 hs cs _ c cs1 Eg Hu).
+    destruct (geom_upd gap hs cs _ c cs1 Eg Hu) as [G1 G2]. split; [exact G1|]. split; [exact G2|].
+    (* the first row is unchanged *)
+    unfold zupd in Hu. destruct ((u64 (cur - top2) <? 0) || (zlen cs <=? u64 (cur - top2))); [discriminate|].
+    injection Hu as <-. unfold zget in Eg. destruct (u64 (cur - top2) <? 0); [discriminate|].
+    destruct cs as [|a cs]; [destruct (Z.to_nat _); discriminate|].
+    destruct (Z.to_nat (u64 (cur - top2))) as [|n]; simpl in *; [injection Eg as ->; auto|auto].
   - intros Hs; injection Hs as <-. auto.
 Qed.
 
@@ -711,57 +746,54 @@ Lemma shift_idx adj cs : map c_idx (shift adj cs) = map c_idx cs.
 Proof. unfold shift. rewrite map_map. reflexivity. Qed.
 
 Lemma draw_follow_shape wants cur top2 H cs1 cs2 w2 :
-  draw_follow wants cur top2 H cs1 = Some (cs2, w2) -> cs2 = cs1 \/ exists adj, cs2 = shift adj cs1.
+  draw_follow wants cur top2 H cs1 = Some (cs2, w2) ->
+  cs2 = cs1 \/ exists adj, adj <= 0 /\ cs2 = shift adj cs1.
 Proof.
   unfold draw_follow. destruct (wants && cursor_hit cur top2 cs1).
   - destruct (zget cs1 (u64 (cur - top2))) as [c|]; [|discriminate].
-    destruct (H <? c_row c + c_h c); intros Hs; injection Hs as <- _; eauto.
+    destruct (H <? c_row c + c_h c) eqn:E; intros Hs; injection Hs as <- _; [right|left; reflexivity].
+    exists (H - (c_row c + c_h c)). split; [lia|reflexivity].
   - intros Hs; injection Hs as <- _; auto.
 Qed.
 
-Lemma reset_loop_range cs : forall k top off,
-  0 <= top < 18446744073709551616 -> 0 <= fst (reset_loop cs k top off) < 18446744073709551616.
+Lemma reset_loop_range gap cs : forall k top off,
+  0 <= top < 18446744073709551616 -> 0 <= fst (reset_loop gap cs k top off) < 18446744073709551616.
 Proof.
   induction cs as [|a cs IH]; intros k top off Ht; [exact Ht|].
-  cbn [reset_loop]. destruct (covers0 a); apply IH; [apply u64_range|exact Ht].
+  cbn [reset_loop]. destruct (covers0 gap a); apply IH; [apply u64_range|exact Ht].
 Qed.
 
 Theorem draw_props gap dc hs W H st cs st' :
-  wf_items hs -> wf_state st -> draw gap dc hs W H st = Ok (cs, st') ->
-  geom_ok gap (d_top st) hs cs /\ cols_ok dc (d_cur st) cs = true /\
+  wf_items gap hs -> wf_state st -> draw gap dc hs W H st = Ok (cs, st') ->
+  geom_ok gap hs cs /\ cols_ok dc (d_cur st) cs = true /\
   d_pend st' = 0 /\ d_cur st' = d_cur st /\ wf_state st' /\
-  (0 <= gap -> anchor_ok st' cs = true) /\
-  (exists top2, hd_idx_is top2 cs /\ 0 <= top2 <= d_top st /\ (no_insertion st -> top2 = d_top st)).
+  anchor_ok gap st' cs = true /\ hd_row_le0 cs.
 Proof.
-  intros Hw Hs. pose proof Hw as (Hnn & Hsum & Hlen). pose proof Hs as (Hcur & Htop). unfold draw.
+  intros Hw Hs. pose proof Hw as (Hnn & Hg & Hsum & Hlen). pose proof Hs as (Hcur & Htop). unfold draw.
   destruct ((H =? 65535) || (W =? 65535)); [discriminate|].
   pose proof (draw_layout_props gap dc hs H st Hw Hs) as L.
-  pose proof (draw_layout_noins gap dc hs H st) as Lni.
-  destruct (draw_layout gap dc hs H st) as [[top2 off2] cs0]. destruct L as (L1 & L2 & L3 & L4).
-  simpl in Lni.
+  destruct (draw_layout gap dc hs H st) as [[top2 off2] cs0]. destruct L as (L1 & L2 & L2r & L3 & L4).
   destruct (draw_cursor dc (d_cur st) top2 cs0) as [cs1|] eqn:E1; [|discriminate].
   destruct (draw_follow (d_wants st) (d_cur st) top2 H cs1) as [[cs2 w2]|] eqn:E2; [|discriminate].
-  pose proof (draw_cursor_shape gap (d_top st) hs _ _ _ _ _ E1) as (C1 & C2).
+  pose proof (draw_cursor_shape gap hs _ _ _ _ _ E1) as (C1 & C2 & C2r).
   pose proof (draw_cursor_cols dc (d_cur st) top2 cs0 cs1 Hcur ltac:(lia) (proj1 (proj2 L1)) L2 L3 E1) as C3.
-  specialize (C1 L1).
-  assert (G2 : geom_ok gap (d_top st) hs cs2 /\ cols_ok dc (d_cur st) cs2 = true /\ map c_idx cs2 = map c_idx cs0).
-  { destruct (draw_follow_shape _ _ _ _ _ _ _ E2) as [->|[adj ->]].
+  specialize (C1 L1). specialize (C2r L2r).
+  assert (G2 : geom_ok gap hs cs2 /\ cols_ok dc (d_cur st) cs2 = true /\ map c_idx cs2 = map c_idx cs0 /\ hd_row_le0 cs2).
+  { destruct (draw_follow_shape _ _ _ _ _ _ _ E2) as [->|(adj & Ha & ->)].
     - auto.
     - split; [apply geom_shift; exact C1|]. split; [rewrite cols_ok_shift; exact C3|].
-      rewrite shift_idx. exact C2. }
-  destruct G2 as (G2 & G3 & G4).
+      split; [rewrite shift_idx; exact C2|]. destruct cs1 as [|a cs1]; [exact I|]. simpl in C2r |- *. lia. }
+  destruct G2 as (G2 & G3 & G4 & G5).
   assert (Hhd : hd_idx_is top2 cs2) by (eapply hd_idx_by_map; [exact G4|exact L2]).
   pose proof (heights_nonneg hs cs2 Hnn (proj1 G2)) as Hh.
   assert (Hir : Forall (fun c => 0 <= c_idx c < 18446744073709551616) cs2).
   { eapply Forall_impl; [|exact (heights_idx_range hs cs2 (proj1 G2))]. cbv beta. intros c Hc. lia. }
-  destruct (reset_loop cs2 0 top2 off2) as [top3 off3] eqn:E3.
+  destruct (reset_loop gap cs2 0 top2 off2) as [top3 off3] eqn:E3.
   intros Hok. injection Hok as <- <-. simpl.
   split; [exact G2|]. split; [exact G3|]. split; [reflexivity|]. split; [reflexivity|].
-  pose proof (reset_loop_range cs2 0 top2 off2 ltac:(lia)) as Hr3. rewrite E3 in Hr3. simpl in Hr3.
-  split; [split; simpl; lia|]. split; [|exists top2; auto].
-  intros Hg.
-  pose proof (reset_loop_anchor cs2 0 top2 off2 top2 (proj1 (proj2 G2))
-                (spacing_no_overlap _ _ _ Hg (proj2 (proj2 G2))) Hh Hir Hhd ltac:(lia)) as A.
+  pose proof (reset_loop_range gap cs2 0 top2 off2 ltac:(lia)) as Hr3. rewrite E3 in Hr3. simpl in Hr3.
+  split; [split; simpl; lia|]. split; [|exact G5].
+  pose proof (reset_loop_anchor gap cs2 0 top2 off2 top2 Hg (proj1 (proj2 G2)) (proj2 (proj2 G2)) Hh Hir Hhd ltac:(lia)) as A.
   rewrite E3 in A. exact (proj1 A).
 Qed.
 
@@ -775,7 +807,7 @@ Lemma down_loop_cursor gap hs cur H co :
   exists c, zget (down_loop suffix i ah wants cur H gap co) (cur - i) = Some c /\
             c_idx c = cur /\ builder hs cur = Some (c_h c) /\
             (i = cur -> c_row c = ah) /\
-            (forall h0, i < cur -> builder hs i = Some h0 -> ah + h0 <= c_row c).
+            (forall h0, i < cur -> builder hs i = Some h0 -> ah + h0 + gap <= c_row c).
 Proof.
   intros Hnn Hg Hcur Hlen. induction suffix as [|h rest IH]; intros i ah wants Hs Hi Hw.
   - symmetry in Hs. apply items_from_nil in Hs; lia.
@@ -813,11 +845,11 @@ Lemma visible_ok_inside r h H : 0 <= r -> r + h <= H -> 0 <= h -> visible_ok r h
 Proof. intros. unfold visible_ok. destruct (h <=? H) eqn:E; lia. Qed.
 
 Theorem draw_cursor_visible gap dc hs W H st cs st' :
-  wf_items hs -> wf_state st -> 0 <= gap -> 0 < H ->
-  d_pend st = 0 -> ioff hs st = true -> d_cur st < zlen hs -> after_select st ->
+  wf_items gap hs -> wf_state st -> 0 < H ->
+  d_pend st = 0 -> ioff gap hs st = true -> d_cur st < zlen hs -> after_select st ->
   draw gap dc hs W H st = Ok (cs, st') -> cursor_visible H (d_cur st) cs = true.
 Proof.
-  intros (Hnn & Hsum & Hlen) (Hcur & Htop) Hg HH Hp Hio Hcn Has. unfold draw.
+  intros (Hnn & Hg & Hsum & Hlen) (Hcur & Htop) HH Hp Hio Hcn Has. unfold draw.
   destruct ((H =? 65535) || (W =? 65535)); [discriminate|].
   unfold ioff in Hio. apply andb_prop in Hio as [Ho1 Ho2].
   unfold draw_layout. rewrite Hp.
@@ -854,16 +886,16 @@ Proof.
   unfold draw_follow. rewrite Hhit, Hu, Hg1.
   destruct (d_wants st) eqn:Ew; simpl.
   - destruct (H <? c_row c1 + c_h c1) eqn:Eb.
-    + destruct (reset_loop _ _ _ _). intros Hok; injection Hok as <- _.
+    + destruct (reset_loop _ _ _ _ _). intros Hok; injection Hok as <- _.
       unfold cursor_visible. apply existsb_exists.
       exists (mkC (c_idx c1) (c_row c1 + (H - (c_row c1 + c_h c1))) (c_col c1) (c_h c1)). split.
       * unfold shift. apply in_map_iff. exists c1. split; [reflexivity|eapply zget_In; exact Hg1].
       * simpl. replace (c_row c1 + (H - (c_row c1 + c_h c1))) with (H - c_h c1) by lia.
         rewrite visible_ok_bottom by lia. lia.
-    + destruct (reset_loop _ _ _ _). intros Hok; injection Hok as <- _.
+    + destruct (reset_loop _ _ _ _ _). intros Hok; injection Hok as <- _.
       unfold cursor_visible. apply existsb_exists. exists c1. split; [eapply zget_In; exact Hg1|].
       rewrite visible_ok_inside by lia. lia.
-  - destruct (reset_loop _ _ _ _). intros Hok; injection Hok as <- _.
+  - destruct (reset_loop _ _ _ _ _). intros Hok; injection Hok as <- _.
     unfold cursor_visible. apply existsb_exists. exists c1. split; [eapply zget_In; exact Hg1|].
     destruct Hrow as [_ Hr0]. specialize (Hr0 eq_refl).
     assert (Hv : visible_ok (c_row c1) (c_h c1) H = true).
@@ -875,10 +907,10 @@ Qed.
 (* Dynamic: operation sequences                                                        *)
 (* ---------------------------------------------------------------------------------- *)
 
-Definition wf_op (op : dop) : Prop :=
+Definition wf_op (gap : Z) (op : dop) : Prop :=
   match op with
   | DSetCursor c => 0 <= c < 18446744073709551616
-  | DSetItems hs' => wf_items hs'
+  | DSetItems hs' => wf_items gap hs'
   | DDraw w h => w <> 65535 /\ h <> 65535
   | _ => True
   end.
@@ -915,8 +947,8 @@ Proof.
 Qed.
 
 Lemma dstep_wf gap dc hs st op hs' st' cs :
-  wf_items hs -> wf_state st -> wf_op op -> dstep gap dc hs st op = Ok (hs', st', cs) ->
-  wf_items hs' /\ wf_state st'.
+  wf_items gap hs -> wf_state st -> wf_op gap op -> dstep gap dc hs st op = Ok (hs', st', cs) ->
+  wf_items gap hs' /\ wf_state st'.
 Proof.
   intros Hw Hs Ho. destruct op; simpl in *.
   - intros E; injection E as <- <- _. split; [auto|]. unfold next_item.
@@ -950,7 +982,7 @@ Proof.
 Qed.
 
 Lemma dstep_index gap dc hs st op hs' st' cs :
-  wf_items hs -> wf_state st ->
+  wf_items gap hs -> wf_state st ->
   dstep gap dc hs st op = Ok (hs', st', cs) -> index_step_ok op hs st st' = true.
 Proof.
   intros Hw Hs. destruct op; simpl.
@@ -971,27 +1003,24 @@ Proof.
 Qed.
 
 Lemma draw_obs_model_ok gap dc hs W H st sel cs st' :
-  wf_items hs -> wf_state st -> (sel = true -> after_select st) ->
-  draw gap dc hs W H st = Ok (cs, st') -> draw_obs_ok gap dc hs H st sel st' cs = true.
+  wf_items gap hs -> wf_state st -> (sel = true -> after_select st) ->
+  draw gap dc hs W H st = Ok (cs, st') -> draw_obs_ok true gap dc hs H st sel st' cs = true.
 Proof.
-  intros Hw Hs Hsel E. destruct (draw_props _ _ _ _ _ _ _ _ Hw Hs E) as ((G1 & G2 & G3) & C & P & Cu & _ & A & _).
-  unfold draw_obs_ok. rewrite G1, G2, G3, C, P, Cu. simpl.
-  replace (d_cur st =? d_cur st) with true by lia.
-  assert (Hno : (gap <? 0) || no_overlap cs = true).
-  { destruct (gap <? 0) eqn:Eg; [reflexivity|]. simpl. eapply spacing_no_overlap; [|exact G3]. lia. }
-  assert (Han : (gap <? 0) || anchor_ok st' cs = true).
-  { destruct (gap <? 0) eqn:Eg; [reflexivity|]. simpl. apply A. lia. }
-  rewrite Hno, Han. simpl.
-  destruct (sel && (d_pend st =? 0) && (0 <=? gap) && ioff hs st && (d_cur st <? zlen hs) && (0 <? H)) eqn:Ev; [|reflexivity].
+  intros Hw Hs Hsel E. destruct (draw_props _ _ _ _ _ _ _ _ Hw Hs E) as ((G1 & G2 & G3) & C & P & Cu & _ & A & R).
+  pose proof Hw as (_ & Hg & _ & _).
+  unfold draw_obs_ok. rewrite G1, G2, G3, C, P, Cu, A, (spacing_no_overlap gap cs Hg G3). simpl.
+  replace (d_cur st =? d_cur st) with true by lia. simpl.
+  rewrite (scroll_kept_or_past_end gap cs G3 R). simpl.
+  destruct (sel && (d_pend st =? 0) && ioff gap hs st && (d_cur st <? zlen hs) && (0 <? H)) eqn:Ev; [|reflexivity].
   apply andb_prop in Ev as [Ev E6]. apply andb_prop in Ev as [Ev E5]. apply andb_prop in Ev as [Ev E4].
-  apply andb_prop in Ev as [Ev E3]. apply andb_prop in Ev as [Ev E2].
+  apply andb_prop in Ev as [Ev E2].
   eapply draw_cursor_visible with (W := W) (gap := gap) (hs := hs) (dc := dc) (st' := st');
-    [exact Hw|exact Hs|lia|lia|lia|exact E4|lia|apply Hsel; exact Ev|exact E].
+    [exact Hw|exact Hs|lia|lia|exact E4|lia|apply Hsel; exact Ev|exact E].
 Qed.
 
 Theorem dyn_trace_model_ok gap dc : forall ops hs st sel,
-  wf_items hs -> wf_state st -> Forall wf_op ops -> (sel = true -> after_select st) ->
-  dyn_trace_ok gap dc hs st sel (dyn_run gap dc hs st ops) = true.
+  wf_items gap hs -> wf_state st -> Forall (wf_op gap) ops -> (sel = true -> after_select st) ->
+  dyn_trace_ok true gap dc hs st sel (dyn_run gap dc hs st ops) = true.
 Proof.
   induction ops as [|op ops IH]; intros hs st sel Hw Hs Ho Hsel; [reflexivity|].
   pose proof (Forall_inv Ho) as Ho1. pose proof (Forall_inv_tail Ho) as Ho'.
@@ -1011,34 +1040,6 @@ Proof.
   destruct op; try reflexivity.
   simpl in E. destruct (draw gap dc hs w h st) as [[cs0 st0]|] eqn:Ed; [|discriminate].
   injection E as <- <- <-. rewrite (draw_obs_model_ok _ _ _ _ _ _ _ _ _ Hw Hs Hsel Ed). reflexivity.
-Qed.
-
-(* ---------------------------------------------------------------------------------- *)
-(* Dynamic: exact-gap layout                                                           *)
-(* ---------------------------------------------------------------------------------- *)
-
-Lemma adj_imp_in {A} (R R' : A -> A -> bool) l :
-  (forall a b, In a l -> R a b = true -> R' a b = true) -> adj R l = true -> adj R' l = true.
-Proof.
-  induction l as [|a t IH]; auto. destruct t as [|b t]; auto.
-  intros HR. rewrite !adj_cons2. intros H; apply andb_prop in H as [H1 H2].
-  rewrite (HR a b (or_introl eq_refl) H1). simpl. apply IH; [|exact H2].
-  intros x y Hx. apply HR. right; exact Hx.
-Qed.
-
-Theorem draw_spacing_exact gap dc hs W H st cs st' :
-  wf_items hs -> wf_state st -> draw gap dc hs W H st = Ok (cs, st') ->
-  gap = 0 \/ no_insertion st -> spacing_exact gap cs = true.
-Proof.
-  intros Hw Hs E Hc.
-  destruct (draw_props _ _ _ _ _ _ _ _ Hw Hs E) as ((G1 & G2 & G3) & _ & _ & _ & _ & _ & (top2 & T1 & T2 & T3)).
-  unfold spacing_exact, spacing in *. destruct Hc as [->|Hni].
-  - eapply adj_imp; [|exact G3]. intros a b. cbv beta. destruct (c_idx a <? d_top st), (c_idx a <? 0); lia.
-  - specialize (T3 Hni). subst top2.
-    eapply adj_imp_in; [|exact G3]. intros a b Ha. cbv beta. apply In_zget in Ha as [k Hk].
-    pose proof (consecutive_nth cs (d_top st) k a G2 T1 Hk) as Hi.
-    pose proof (zget_some_range _ _ _ Hk) as Hr. destruct Hs as [_ Ht].
-    destruct (c_idx a <? d_top st) eqn:E1; [lia|]. destruct (c_idx a <? 0) eqn:E2; [lia|]. auto.
 Qed.
 
 (* ====================================================================================== *)
@@ -1364,17 +1365,27 @@ Proof.
   split; [simpl; now rewrite I1|constructor; [reflexivity|exact I2]].
 Qed.
 
-(* a Draw that finds a child covering row 0 leaves the scroll state anchored inside that child:
-   the precondition [ioff] of the visibility theorem *)
+(* a Draw that finds a child (or the gap below it) on row 0 leaves the scroll state anchored
+   there: the precondition [ioff] of the visibility theorem *)
 Theorem draw_establishes_ioff gap dc hs W H st cs st' :
-  wf_items hs -> wf_state st -> 0 <= gap -> draw gap dc hs W H st = Ok (cs, st') ->
-  (exists c, In c cs /\ covers0 c = true) -> ioff hs st' = true.
+  wf_items gap hs -> wf_state st -> draw gap dc hs W H st = Ok (cs, st') ->
+  (exists c, In c cs /\ covers0 gap c = true) -> ioff gap hs st' = true.
 Proof.
-  intros Hw Hs Hg E (c & Hin & Hc).
+  intros Hw Hs E (c & Hin & Hc).
   destruct (draw_props _ _ _ _ _ _ _ _ Hw Hs E) as ((G1 & _ & _) & _ & _ & _ & _ & A & _).
-  specialize (A Hg). unfold anchor_ok in A. rewrite forallb_forall in A. specialize (A c Hin).
+  unfold anchor_ok in A. rewrite forallb_forall in A. specialize (A c Hin).
   rewrite Hc in A. simpl in A. unfold heights_ok in G1. rewrite forallb_forall in G1. specialize (G1 c Hin).
   unfold ioff. replace (d_top st') with (c_idx c) by lia.
   destruct (builder hs (c_idx c)) as [h|]; simpl in G1; [|discriminate].
   unfold covers0 in Hc. lia.
+Qed.
+
+(* ... and every Draw either does so or has drawn everything above row 0 (scroll past the end) *)
+Theorem draw_scroll_kept_or_past_end gap dc hs W H st cs st' :
+  wf_items gap hs -> wf_state st -> draw gap dc hs W H st = Ok (cs, st') ->
+  scroll_kept gap cs || past_end gap cs = true.
+Proof.
+  intros Hw Hs E.
+  destruct (draw_props _ _ _ _ _ _ _ _ Hw Hs E) as ((_ & _ & G3) & _ & _ & _ & _ & _ & R).
+  apply scroll_kept_or_past_end; assumption.
 Qed.
